@@ -544,6 +544,9 @@ fn expand(
                         sh.result.violations.push(v);
                     }
                 }
+                for c in mon.cells.drain(..) {
+                    *sh.result.cells.entry(c).or_insert(0) += 1;
+                }
                 if collect_journals && sc.journal {
                     let tags: Vec<String> = sys
                         .journal_records
